@@ -13,6 +13,7 @@ type Generator struct {
 	scopes         int
 	instructions   []Instruction
 	knownFunctions map[int]*SexpFunction
+	arrayDepth     int // nesting of the array literal being compiled
 }
 
 type Loop struct {
@@ -26,6 +27,8 @@ type Loop struct {
 }
 
 func (loop *Loop) IsStackElem() {}
+
+const maxArrayLiteralDepth = 10000
 
 func NewGenerator(env *Zlisp) *Generator {
 	gen := new(Generator)
@@ -832,6 +835,13 @@ func (gen *Generator) GenerateCall(expr *SexpPair) error {
 }
 
 func (gen *Generator) GenerateArray(arr *SexpArray) error {
+	// an array value handed to eval can contain itself; compiling
+	// it would recurse until the Go stack overflows.
+	gen.arrayDepth++
+	defer func() { gen.arrayDepth-- }()
+	if gen.arrayDepth > maxArrayLiteralDepth {
+		return fmt.Errorf("array nested more than %d deep (does it contain itself?)", maxArrayLiteralDepth)
+	}
 	err := gen.GenerateAll(arr.Val)
 	if err != nil {
 		return err
